@@ -42,8 +42,10 @@ type Op struct {
 	// Lookups (kind "colookup"): number of goroutines looking the same root up at the same time; the first
 	// header request is held by the provider until the others have started, then all are answered
 	// (or all fail, as Fail/FailKind say).
-	Lookups int    `json:"lookups,omitempty"`
-	Epochs  uint64 `json:"epochs,omitempty"` // advance
+	Lookups int `json:"lookups,omitempty"`
+	// Spread (kind "colookup"): goroutine k looks up root (Root+k) mod universe instead of all the same root.
+	Spread bool   `json:"spread,omitempty"`
+	Epochs uint64 `json:"epochs,omitempty"` // advance
 	Slots  uint64 `json:"slots,omitempty"`  // advance (in addition to epochs)
 }
 
@@ -193,6 +195,7 @@ func genCase(t *rapid.T) Case {
 			if kind == "colookup" {
 				op.Lookups = rapid.IntRange(2, 3).Draw(t, "lookups")
 				op.Fail = rapid.Bool().Draw(t, "coFail")
+				op.Spread = nRoots > 1 && rapid.Bool().Draw(t, "spread")
 				if op.Fail {
 					op.FailKind = rapid.IntRange(0, 3).Draw(t, "failKind")
 				}
@@ -251,7 +254,7 @@ func genCase(t *rapid.T) Case {
 }
 
 type stats struct {
-	missNonZero, cleanAfterRetention, boundaryKept, failedFetch, hitAfterMiss, burst, knewMore, coLookup, coLookupFailed, optimistic bool
+	missNonZero, cleanAfterRetention, boundaryKept, failedFetch, hitAfterMiss, burst, knewMore, coLookup, coLookupSpread, coLookupFailed, optimistic bool
 }
 
 // runAndJudge executes the history against a fresh real cache service and the
@@ -382,26 +385,38 @@ func runAndJudge(c *Case) (string, string, stats) {
 				}
 			}
 		case "colookup":
-			// Several goroutines look the same root up at once (strategies of different duties ask for the
-			// slot of the same head root at the same moment).  The provider holds the first request until the
-			// other lookups have been started, then answers or fails all of them.
-			want := c.RootSlot[op.Root]
-			where := fmt.Sprintf("op %d concurrent lookup x%d (root %d, true slot %d)", i, op.Lookups, op.Root, want)
-			known, old := model[op.Root], maybe[op.Root]
+			// Several goroutines look roots up at once (strategies of different duties ask for the slot of
+			// the same head root, or of different roots, at the same moment).  The provider holds the first
+			// request until the other lookups have been started, then answers or fails all of them; it reads
+			// the requested block id when it answers, as an HTTP client does when it builds the request.
+			rootFor := func(k int) int {
+				if op.Spread {
+					return (op.Root + k) % len(c.RootSlot)
+				}
+				return op.Root
+			}
+			where := fmt.Sprintf("op %d concurrent lookup x%d (first root %d, spread %v)", i, op.Lookups, op.Root, op.Spread)
+			known, old := map[int]bool{}, map[int]bool{}
+			allKnown := true
+			for k := 0; k < op.Lookups; k++ {
+				known[rootFor(k)], old[rootFor(k)] = model[rootFor(k)], maybe[rootFor(k)]
+				allKnown = allKnown && model[rootFor(k)]
+			}
 			hp.failNext, hp.failKind = op.Fail, op.FailKind
 			hp.hold, hp.arrived = make(chan struct{}), make(chan struct{}, op.Lookups)
 			type res struct {
+				root int
 				slot phase0.Slot
 				err  error
 			}
 			results := make(chan res, op.Lookups)
 			before := hp.calls
-			lookup := func() {
-				got, err := svc.BlockRootToSlot(ctx, c.root(op.Root))
-				results <- res{got, err}
+			lookup := func(k int) {
+				got, err := svc.BlockRootToSlot(ctx, c.root(rootFor(k)))
+				results <- res{rootFor(k), got, err}
 			}
 			var collected []res
-			go lookup()
+			go lookup(0)
 			select {
 			case <-hp.arrived:
 			case r := <-results: // answered from the cache
@@ -410,7 +425,7 @@ func runAndJudge(c *Case) (string, string, stats) {
 				return "harness", where + ": first lookup neither asked the node nor returned", st
 			}
 			for k := 1; k < op.Lookups; k++ {
-				go lookup()
+				go lookup(k)
 			}
 			// give the later lookups the chance to reach the provider or whatever they wait on; this only
 			// affects which interleaving is explored, not the judgement
@@ -435,43 +450,53 @@ func runAndJudge(c *Case) (string, string, stats) {
 			hp.failNext = false
 			consulted := hp.calls - before
 			st.coLookup = true
+			if op.Spread {
+				st.coLookupSpread = true
+			}
 			for _, r := range collected {
+				want := c.RootSlot[r.root]
 				if r.err == nil && uint64(r.slot) != want {
 					if op.Fail {
-						return "failed-fetch-returned-slot", fmt.Sprintf("%s: the header fetch failed but a lookup returned slot %d without error", where, r.slot), st
+						return "failed-fetch-returned-slot", fmt.Sprintf("%s: the header fetch failed but the lookup of root %d returned slot %d without error", where, r.root, r.slot), st
 					}
-					return "miss-wrong-slot", fmt.Sprintf("%s: a lookup returned slot %d", where, r.slot), st
+					return "miss-wrong-slot", fmt.Sprintf("%s: the lookup of root %d (true slot %d) returned slot %d", where, r.root, want, r.slot), st
 				}
 				switch {
-				case known:
+				case known[r.root]:
 					if r.err != nil {
-						return "hit-error", where + ": cached entry returned error " + r.err.Error(), st
+						return "hit-error", fmt.Sprintf("%s: cached entry of root %d returned error %v", where, r.root, r.err), st
 					}
-				case op.Fail && !old && consulted > 0:
+				case op.Fail && !old[r.root] && consulted > 0 && !op.Spread:
 					// not cached, node asked and failing: nothing can be known
 					if r.err == nil {
 						return "failed-fetch-returned-slot", fmt.Sprintf("%s: the header fetch failed but a lookup returned slot %d without error", where, r.slot), st
 					}
 				case !op.Fail:
 					if r.err != nil {
-						return "miss-error", where + ": fetch succeeded but a lookup returned error " + r.err.Error(), st
+						return "miss-error", fmt.Sprintf("%s: fetch succeeded but the lookup of root %d returned error %v", where, r.root, r.err), st
 					}
 				}
 			}
-			if known && consulted != 0 {
-				return "retained-entry-refetched", where + ": entry inside the retention window was not answered from the cache", st
+			if allKnown && consulted != 0 {
+				return "retained-entry-refetched", where + ": entries inside the retention window were not answered from the cache", st
 			}
 			switch {
-			case known:
+			case allKnown:
 			case !op.Fail:
-				delete(maybe, op.Root)
-				model[op.Root] = true
-			case !old && consulted == 0:
+				for r := range known {
+					delete(maybe, r)
+					model[r] = true
+				}
+			case op.Spread:
+				// failed fetches of several roots: nothing may have been cached; roots that were not known stay
+				// unknown and later lookups judge them
+			case !old[op.Root] && consulted == 0:
 				// answered (correctly, see above) without the node: the cache knew more than the model
 				st.knewMore = true
 				model[op.Root] = true
-			case !old:
+			case !old[op.Root]:
 				st.coLookupFailed = true
+				want := c.RootSlot[op.Root]
 				// the failure must not have been cached as a slot
 				b2 := hp.calls
 				got2, err2 := svc.BlockRootToSlot(ctx, c.root(op.Root))
@@ -591,6 +616,9 @@ func check(t ev.TB, c *Case) {
 	}
 	if st.coLookup {
 		labels = append(labels, "concurrent-lookups-of-one-root")
+	}
+	if st.coLookupSpread {
+		labels = append(labels, "concurrent-lookups-of-different-roots")
 	}
 	if st.coLookupFailed {
 		labels = append(labels, "concurrent-misses-with-failing-fetch")
